@@ -55,7 +55,16 @@ def small_type(g, draw, depth=0):
             members.append((mn, t))
             text.append(t.decl(mn) + ";")
         elif mk <= 8:
-            t = initgen.T("array", elem=initgen.T("scalar", draw(st.sampled_from(["char", "short", "int", "float", "double", "long"]))), n=draw(st.integers(1, 4)))
+            elem = initgen.T("scalar", draw(st.sampled_from(["char", "short", "int", "float", "double", "long"])))
+            shape = draw(st.integers(0, 5))
+            if shape == 0 and depth < 2:
+                # array of aggregates
+                elem = small_type(g, draw, depth + 1)
+            elif shape <= 2:
+                # multi-dimensional array: the IL description must count all elements
+                for _ in range(draw(st.integers(1, 2))):
+                    elem = initgen.T("array", elem=elem, n=draw(st.integers(1, 3)))
+            t = initgen.T("array", elem=elem, n=draw(st.integers(1, 4)))
             members.append((mn, t))
             text.append(t.decl(mn) + ";")
         else:
